@@ -31,7 +31,7 @@ type deferTable map[string][]string // function -> deferred callees
 
 // deferredCallees lists what fn defers: callee names of direct defers, and of the calls inside
 // deferred closures (depth 1). Logging and formatting are not cleanup and are left out.
-func deferredCallees(fn *ssa.Function) map[string]bool {
+func deferredCallees(fn *ssa.Function, seeThrough bool) map[string]bool {
 	out := map[string]bool{}
 	uninteresting := func(n string) bool {
 		return n == "" || strings.HasPrefix(n, "dyn:") || strings.HasPrefix(n, "log.") || strings.HasPrefix(n, "fmt.") || strings.Contains(n, "Logger.") || strings.HasPrefix(n, "time.") || strings.HasPrefix(n, "debug.") || strings.HasPrefix(n, "errors.") || strings.HasPrefix(n, "strings.") || strings.HasPrefix(n, "runtime.")
@@ -64,6 +64,30 @@ func deferredCallees(fn *ssa.Function) map[string]bool {
 		if _, isB := d.Call.Value.(*ssa.Builtin); isB {
 			return
 		}
+		// a deferred release through a private lock wrapper (`defer pv.unlock()`) is the release it wraps
+		if op, isOp := lockOpOf(in); seeThrough && isOp && !op.Acquire {
+			if op.Kind == "r" {
+				out["sync.RWMutex.RUnlock"] = true
+			} else {
+				out["sync.Mutex.Unlock"] = true
+				out["sync.RWMutex.Unlock"] = true
+			}
+		}
+		// a deferred call of a function that is read as part of this one (a helper that did not exist when
+		// the rules were reviewed): what its body calls
+		if callee := d.Call.StaticCallee(); seeThrough && callee != nil && ir.IsTransparentHelper(callee) {
+			for _, b := range callee.Blocks {
+				for _, x := range b.Instrs {
+					if c, ok := x.(ssa.CallInstruction); ok {
+						if _, isB := c.Common().Value.(*ssa.Builtin); !isB {
+							if n := ir.CalleeName(c); !uninteresting(n) {
+								out[n] = true
+							}
+						}
+					}
+				}
+			}
+		}
 		if n := ir.CalleeName(d); !uninteresting(n) {
 			out[n] = true
 		}
@@ -79,7 +103,7 @@ func GenDeferTable(p *ir.Program, verifDir string) (int, error) {
 		if strings.HasSuffix(fileOf(p, fn), "_test.go") || ir.IsTransparentHelper(fn) {
 			continue
 		}
-		ds := deferredCallees(fn)
+		ds := deferredCallees(fn, false)
 		if len(ds) == 0 {
 			continue
 		}
@@ -121,7 +145,7 @@ func deferRegression(p *ir.Program, r *report.R, files map[string]bool) {
 	nC := 0
 	for _, name := range names {
 		fn := funcs[name]
-		have := deferredCallees(fn)
+		have := deferredCallees(fn, true)
 		var missing []string
 		for _, callee := range tab[name] {
 			nC++
@@ -132,7 +156,11 @@ func deferRegression(p *ir.Program, r *report.R, files map[string]bool) {
 				missing = append(missing, "recover (no deferred recover left)")
 				continue
 			}
-			// turned into explicit calls: on every path to every return
+			// turned into explicit calls: every path that TOUCHES the resource (any other call on the same
+			// receiver/first argument: the Lock of that mutex, a write to that file) reaches a return only
+			// through the call; a return taken before the resource is touched (the nil-receiver exit above the
+			// Lock) needs none - the defer statement was not reached there either. Without such an anchor:
+			// every path from the entry.
 			calls := ir.Calls(fn, callee)
 			explicit := len(calls) > 0
 			if explicit {
@@ -140,8 +168,40 @@ func deferRegression(p *ir.Program, r *report.R, files map[string]bool) {
 					c, ok := in.(*ssa.Call)
 					return ok && ir.CalleeName(c) == callee
 				}
-				if found, _, _ := ir.FindPath(ir.PathQuery{From: ir.Entry(fn), Target: ir.IsReturn, Avoid: isCall}); found {
-					explicit = false
+				res := map[string]bool{}
+				for _, c := range calls {
+					if len(c.Common().Args) > 0 {
+						res[ir.Render(c.Common().Args[0])] = true
+					} else if c.Common().IsInvoke() {
+						res[ir.Render(c.Common().Value)] = true
+					}
+				}
+				var anchors []ssa.Instruction
+				ir.Instrs(fn, func(in ssa.Instruction) {
+					c, ok := in.(*ssa.Call)
+					if !ok || ir.CalleeName(c) == callee {
+						return
+					}
+					if c.Call.IsInvoke() && res[ir.Render(c.Call.Value)] {
+						anchors = append(anchors, in)
+						return
+					}
+					for _, a := range c.Call.Args {
+						if res[ir.Render(a)] {
+							anchors = append(anchors, in)
+							return
+						}
+					}
+				})
+				if len(anchors) == 0 {
+					if found, _, _ := ir.FindPath(ir.PathQuery{From: ir.Entry(fn), Target: ir.IsReturn, Avoid: isCall}); found {
+						explicit = false
+					}
+				}
+				for _, a := range anchors {
+					if found, _, _ := ir.FindPath(ir.PathQuery{From: ir.At(a), Target: ir.IsReturn, Avoid: isCall}); found {
+						explicit = false
+					}
 				}
 			}
 			if !explicit {
